@@ -83,6 +83,14 @@ macro_rules! assert_remaining {
     };
 }
 
+/// Split off the first `len` bytes of `buf`, failing instead of panicking
+/// when fewer than `len` bytes remain.
+#[inline]
+pub(crate) fn split_to_checked(buf: &mut bytes::Bytes, len: usize) -> Result<bytes::Bytes, IOError> {
+    assert_remaining!(len <= buf.len(), "`len` greater than remaining");
+    Ok(buf.split_to(len))
+}
+
 pub trait WriteExt {
     fn write_slice(&mut self, src: &[u8]);
     fn write_u8(&mut self, n: u8);
